@@ -16,8 +16,8 @@ from .. import facts as factsmod
 META = {
     "engine": "zfeat (cargo check matrix)",
     "technique": "static analysis: rustc type checker over an enumerated feature-configuration matrix and generated downstream manifests (cargo check --offline; nothing is run)",
-    "level": "Every enumerated feature configuration (quick: none/default/each single feature/all per crate, both zbus backends; "
-             "thorough: feature powersets) and each generated downstream crate is type-checked. Decides 'builds' up to type checking; "
+    "level": "Every enumerated feature configuration (quick: the code-gating features gvariant, option-as-array, p2p, bus-impl and both zbus backends; "
+             "thorough: every single feature, all, and feature powersets) and each generated downstream crate is type-checked. Decides 'builds' up to type checking; "
              "codegen/link errors after type checking are not decided. Platform-only code is checked for the host only.",
 }
 
@@ -61,6 +61,26 @@ def configs_for(repo, crate, tier):
             args += ["--features", ",".join(fs)]
         return (label, args)
 
+    if tier == "quick":
+        # the every-change matrix (kept small: it is run on every change): the features that gate code paths
+        # (gvariant, option-as-array, p2p, bus-impl) and both zbus backends. Every single feature, "all" and the
+        # powersets run in the thorough tier.
+        if crate == "zbus":
+            out.append(cfg([], default=True))
+            out.append(cfg(["tokio"]))
+            out.append(cfg(["async-io", "p2p", "bus-impl"]))
+            out.append(cfg(["tokio", "p2p", "option-as-array"]))
+        elif crate == "zvariant":
+            out.append(cfg([]))
+            out.append(cfg(["gvariant"]))
+            out.append(cfg(["option-as-array"]))
+            out.append(cfg(["gvariant", "option-as-array"]))
+        elif crate in ("zvariant_utils", "zvariant_derive", "zbus_macros"):
+            out.append(cfg([]))
+            out.append(cfg(names))
+        else:
+            out.append(cfg([]))
+        return out
     if crate == "zbus":
         others = [n for n in names if n not in ZBUS_BACKENDS and n != "async-fs"]
         # features that imply or need a particular backend
@@ -120,7 +140,7 @@ use zvariant::{Type, Value, OwnedValue, serialized::Context, to_bytes, LE};
 use serde::{Serialize, Deserialize};
 
 #[derive(Type, Serialize, Deserialize, Debug, PartialEq)]
-pub struct Rec { a: u8, b: String, c: Vec<(u32, Option<i64>)>, }
+pub struct Rec { a: u8, b: String, c: Vec<(u32, i64)>, }
 
 #[derive(Type, Serialize, Deserialize, Value, OwnedValue, Debug, Clone, PartialEq)]
 pub struct Pair { x: i32, y: String }
@@ -179,6 +199,10 @@ def downstream_specs(tier):
         "zvariant[gvariant]+zbus_names": ({"zvariant": (False, ["gvariant"]), "zbus_names": (True, [])}, False),
         "zvariant+zvariant_utils[gvariant]": ({"zvariant": (False, []), "zvariant_utils": (True, ["gvariant"])}, False),
     }
+    if tier == "quick":
+        keep = ("zbus+zvariant[gvariant]", "zbus+zvariant[option-as-array]", "zbus+zbus_macros[gvariant]",
+                "zvariant+zvariant_derive[gvariant]", "zvariant+zvariant_utils[gvariant]")
+        s = {k: v for k, v in s.items() if k in keep}
     if tier == "thorough":
         s.update({
             "zbus[tokio,p2p]+zvariant[gvariant,option-as-array]": ({"zbus": (False, ["tokio", "p2p"]), "zvariant": (False, ["gvariant", "option-as-array"])}, True),
@@ -224,7 +248,7 @@ def run(ctx):
         for i, (name, spec) in enumerate(downstream_specs(tier).items()):
             d = make_downstream(root, repo, i, spec)
             jobs.append(("F-DOWN", "downstream:" + name, d, []))
-        nworkers = 4
+        nworkers = 1 if tier == "quick" else 3
         results = {}
         lock = threading.Lock()
         queue = list(enumerate(jobs))
@@ -243,7 +267,7 @@ def run(ctx):
                         return
                     ji, (kind, label, cwd, args) = queue.pop(0)
                 t = time.time()
-                p = subprocess.run(["cargo", "check", "--offline", "-q", "-j", "4"] + args, cwd=cwd, env=env,
+                p = subprocess.run(["cargo", "check", "--offline", "-q", "-j", "16" if tier == "quick" else "6"] + args, cwd=cwd, env=env,
                                    stdout=subprocess.PIPE, stderr=subprocess.STDOUT, text=True)
                 with lock:
                     results[ji] = (p.returncode, p.stdout[-3000:], time.time() - t)
@@ -256,8 +280,8 @@ def run(ctx):
             rc, out, secs = results[ji]
             detail = "type-checks (%.1fs)" % secs if rc == 0 else "cargo check failed: " + _first_error(out)
             ctx.ob(kind, label, rc == 0, detail, "cargo check --offline " + " ".join(args) if args else cwd.replace(root, "<scratch>"))
-        ctx.floor("F-CRATE", "crate feature configurations", sum(1 for j in jobs if j[0] == "F-CRATE"), 40)
-        ctx.floor("F-DOWN", "downstream crates", sum(1 for j in jobs if j[0] == "F-DOWN"), 8)
+        ctx.floor("F-CRATE", "crate feature configurations", sum(1 for j in jobs if j[0] == "F-CRATE"), 12 if tier == "quick" else 60)
+        ctx.floor("F-DOWN", "downstream crates", sum(1 for j in jobs if j[0] == "F-DOWN"), 4 if tier == "quick" else 10)
         ctx.extra["evaluations"] = len(jobs)
         ctx.extra["distinct_nontrivial"] = len({j[1] for j in jobs})
         ctx.extra["exhaustive"] = False
